@@ -27,7 +27,8 @@ def canon_float(x):
 THR_OPTS = [(["--threshold=0"], "th:" + canon_float("0")), (["--threshold", "2.5"], "th:2.5"), (["--threshold=1e1"], "th:10.0"),
             (["--threshold=-1"], "th:-1.0"), (["--threshold=abc"], "th:bad"), (["--verbose"], "v:t"), (["-v"], "v:t"),
             (["--verbose=false"], "v:f"), (["--verbose=maybe"], "v:b"), (["--no-verbose"], "nv:t"), (["--no-verbose=false"], "nv:f"),
-            (["--critical"], "cr:t"), (["--critical=false"], "cr:f"), (["--threshold=30"], "th:30.0")]
+            (["--critical"], "cr:t"), (["--critical=false"], "cr:f"), (["--threshold=30"], "th:30.0"), (["--threshold=1e999"], "th:bad"),
+            (["--threshold=-1e309"], "th:bad")]
 NAME_OPTS = [(["--names=none"], "nm:none"), (["--names=hash"], "nm:hash"), (["--names", "sha-1"], "nm:hash"), (["--names=sha1"], "nm:hash"),
              (["--names=full"], "nm:full"), (["--names=short"], "nm:bad")]
 JSON_OPTS = [(["-j"], "j:t"), (["--json"], "j:t"), (["--json=false"], "j:f"), (["--json-version=1"], "jv:1"), (["--json-version=2"], "jv:2"),
@@ -37,7 +38,8 @@ PROG_OPTS = [(["--progress"], "p:t"), (["--no-progress"], "np:t"), (["--progress
 CFG = {
     # a valid value with white space around it is not that value: the same string is refused on the command line
     "threshold": [(None, "u"), ("0", "0.0"), ("30", "30.0"), ("2.5", "2.5"), ("many", "bad"), ("", "bad"), (" 1", "bad"), ("30 ", "bad"),
-                  ("0\n", "bad"), ("0.1", "0.1"), ("1.2", "1.2"), ("0.3", "0.3")],
+                  ("0\n", "bad"), ("0.1", "0.1"), ("1.2", "1.2"), ("0.3", "0.3"),
+                  ("1e999", "bad"), ("-1e999", "bad"), ("1e309", "bad")],     # (inf / nan are accepted by --threshold and by gitconfig alike)
     "names": [(None, "u"), ("none", "none"), ("hash", "hash"), ("sha1", "hash"), ("full", "full"), ("x", "bad"), ("full ", "bad"),
               ("\tnone", "bad"), ("hash\n", "bad")],
     "jsonVersion": [(None, "u"), ("1", "1"), ("2", "2"), ("3", "3"), ("two", "fail")],
